@@ -189,7 +189,11 @@ class Walker:
             if isinstance(t, ast.Name):
                 out = set()
                 for st in states:
-                    d = {k: (age(v[0], t.id), age(v[1], t.id)) for k, v in dict(st).items() if k != t.id}
+                    d = {k: (age(v[0], t.id), age(v[1], t.id)) for k, v in dict(st).items() if k not in (t.id, '$' + t.id)}
+                    # a local that holds a factor looked up in the table (`fac = time_unit_conversion[time_unit]`, assigned to
+                    # the attribute later: the look-up-first form of an update that may fail)
+                    if isinstance(s.value, ast.Subscript) and unparse(s.value.value) == 'time_unit_conversion':
+                        d['$' + t.id] = (UNSET, factor_tok(s.value, None))
                     out.add(frozenset(d.items()))
                 return out
             if isinstance(t, ast.Attribute) and isinstance(t.value, ast.Name) and t.attr in ('time_unit', '_conversion_factor'):
@@ -202,7 +206,10 @@ class Walker:
                         if fac == ('tableNow',):
                             fac = ('other', 'factor of an earlier label')
                     else:
-                        fac = factor_tok(s.value, x)
+                        if isinstance(s.value, ast.Name) and ('$' + s.value.id) in dict(st):
+                            fac = dict(st)['$' + s.value.id][1]
+                        else:
+                            fac = factor_tok(s.value, x)
                         if fac == ('tableNow',) and lab == UNSET:
                             fac = ('other', 'table[label] before any label')
                     out.add(self.put(st, x, (lab, fac)))
@@ -332,7 +339,154 @@ def gen_c01ctor():
     return 'C01Ctor.lean', '\n'.join(L), echo
 
 
-GENERATORS = [gen_c01ctor]
+# ------------------------------------------------------------------ failure paths: order of attribute writes vs. possible raises
+def _is_table_lookup(e):
+    return isinstance(e, ast.Subscript) and unparse(e.value) == 'time_unit_conversion'
+
+
+def expr_events(e, param):
+    """events of evaluating an expression: every `time_unit_conversion[<param>]` is a `.lookup` (raises when the argument is
+    not a key); a table lookup with any other key, or any call, is `.unknown` (outside the fragment)"""
+    evs = []
+    if e is None:
+        return evs
+    for n in ast.walk(e):
+        if _is_table_lookup(n):
+            evs.append('.lookup' if isinstance(n.slice, ast.Name) and n.slice.id == param else '.unknown')
+        elif isinstance(n, ast.Call):
+            evs.append('.unknown')
+    return evs
+
+
+def guard_event(test, param):
+    t = unparse(test).replace(' ', '')
+    if t == '%sisNone' % param:
+        return '.raiseIfNone'
+    if t in ('%snotintime_unit_conversion' % param, 'not%sintime_unit_conversion' % param,
+             'not(%sintime_unit_conversion)' % param):
+        return '.raiseIfInvalid'
+    return '.raiseOther'
+
+
+def only_raise(body):
+    return len(body) == 1 and isinstance(body[0], ast.Raise)
+
+
+def stmt_events(stmts, param, owner='self'):
+    """source-order event list of a statement list (the RHS of an assignment is evaluated before the write)"""
+    evs = []
+    for s in stmts:
+        if isinstance(s, ast.Expr) and isinstance(s.value, ast.Constant):
+            continue                                   # docstring
+        if isinstance(s, ast.Pass):
+            continue
+        if isinstance(s, ast.Assign) and len(s.targets) == 1:
+            t = s.targets[0]
+            evs += expr_events(s.value, param)
+            if isinstance(t, ast.Attribute) and isinstance(t.value, ast.Name) and t.value.id == owner:
+                if t.attr == 'time_unit':
+                    evs.append('.writeLabel')
+                elif t.attr == '_conversion_factor':
+                    evs.append('.writeFactor')
+                else:
+                    evs.append('.unknown')
+            elif not isinstance(t, ast.Name):
+                evs.append('.unknown')
+            continue
+        if isinstance(s, ast.If) and only_raise(s.body) and not s.orelse:
+            evs.append(guard_event(s.test, param))
+            continue
+        if isinstance(s, ast.Raise):
+            evs.append('.raiseOther')
+            continue
+        if isinstance(s, ast.Try) and not s.finalbody and not s.orelse and all(only_raise(h.body) for h in s.handlers):
+            evs += stmt_events(s.body, param, owner)   # a failing lookup in the body leaves through the handler's raise
+            continue
+        if isinstance(s, ast.Return) and s.value is None:
+            continue
+        evs.append('.unknown')
+    return evs
+
+
+def self_attr_writers(tree, cls):
+    """methods of `cls` that assign `self.time_unit` / `self._conversion_factor` (or call `self.convert_unit`)"""
+    out = []
+    for node in ast.walk(tree):
+        if isinstance(node, ast.ClassDef) and node.name == cls:
+            for fn in node.body:
+                if not isinstance(fn, ast.FunctionDef):
+                    continue
+                hit = False
+                for n in ast.walk(fn):
+                    if isinstance(n, (ast.Assign, ast.AugAssign)):
+                        for t in (n.targets if isinstance(n, ast.Assign) else [n.target]):
+                            if isinstance(t, ast.Attribute) and isinstance(t.value, ast.Name) and t.value.id == 'self' \
+                                    and t.attr in ('time_unit', '_conversion_factor'):
+                                hit = True
+                    if isinstance(n, ast.Call) and isinstance(n.func, ast.Attribute) and isinstance(n.func.value, ast.Name) \
+                            and n.func.value.id == 'self' and n.func.attr == 'convert_unit':
+                        hit = True
+                    if isinstance(n, ast.Call) and isinstance(n.func, ast.Name) and n.func.id == 'setattr' and n.args \
+                            and isinstance(n.args[0], ast.Name) and n.args[0].id == 'self':
+                        hit = True
+                if hit and fn.name not in out:
+                    out.append(fn.name)
+    return sorted(out)
+
+
+def new_touches_argument(fn, params=('data',)):
+    """does the constructor assign an attribute of / work in place on / call a mutating method of a PARAMETER object?"""
+    if fn is None:
+        return True
+    for n in ast.walk(fn):
+        if isinstance(n, ast.Assign):
+            for t in n.targets:
+                base = t
+                while isinstance(base, (ast.Attribute, ast.Subscript)):
+                    base = base.value
+                if isinstance(t, (ast.Attribute, ast.Subscript)) and isinstance(base, ast.Name) and base.id in params:
+                    return True
+        if isinstance(n, ast.AugAssign):
+            base = n.target
+            while isinstance(base, (ast.Attribute, ast.Subscript)):
+                base = base.value
+            if isinstance(base, ast.Name) and base.id in params:
+                return True
+        if isinstance(n, ast.Call) and isinstance(n.func, ast.Attribute) and isinstance(n.func.value, ast.Name) \
+                and n.func.value.id in params and n.func.attr in ('convert_unit', 'sort', 'fill', 'resize', 'put', 'itemset'):
+            return True
+    return False
+
+
+def gen_c01fail():
+    tree = T.parse('nitime/timeseries.py')
+    echo = {}
+    cu = last_func(tree, 'convert_unit', 'TimeArray')
+    param = cu.args.args[1].arg if cu is not None and len(cu.args.args) > 1 else 'time_unit'
+    evs = stmt_events(cu.body, param) if cu is not None else ['.unknown']
+    echo['TimeArray.convert_unit events'] = evs
+    wr_t = self_attr_writers(tree, 'TimeArray')
+    wr_u = self_attr_writers(tree, 'UniformTime')
+    echo['TimeArray self-attribute writers'] = wr_t
+    echo['UniformTime self-attribute writers'] = wr_u
+    nt = new_touches_argument(last_func(tree, '__new__', 'TimeArray'))
+    echo['TimeArray.__new__ touches its data argument'] = nt
+    L = ['-- GENERATED by harness/translate_c01.py from nitime/timeseries.py (failure paths: order of attribute writes and raises). DO NOT EDIT.',
+         'import Nitime.Model.C01Attr', 'namespace Nitime.Generated.C01Fail', 'open Nitime.C01Attr', '',
+         '/-- `TimeArray.convert_unit`: attribute writes, table lookups with the argument and guarded raises, in source order -/',
+         'def convertUnitEvents : List Ev := [%s]' % ', '.join(evs), '',
+         '/-- methods of TimeArray that write `self.time_unit` / `self._conversion_factor` -/',
+         'def timeArrayAttrWriters : List String := [%s]' % ', '.join('"%s"' % w for w in wr_t), '',
+         '/-- methods of UniformTime that write `self.time_unit` / `self._conversion_factor` -/',
+         'def uniformAttrWriters : List String := [%s]' % ', '.join('"%s"' % w for w in wr_u), '',
+         '/-- `TimeArray.__new__` assigns to / works in place on its `data` argument -/',
+         'def timeArrayNewTouchesArgument : Bool := %s' % ('true' if nt else 'false'), '',
+         'end Nitime.Generated.C01Fail', '']
+    return 'C01Fail.lean', '\n'.join(L), echo
+
+
+GENERATORS = [gen_c01ctor, gen_c01fail]
 
 if __name__ == '__main__':
     print(gen_c01ctor()[1])
+    print(gen_c01fail()[1])
